@@ -8,6 +8,9 @@
 //	reset [next=<n>]                      fresh requester; optionally presets the id allocator (wrap tests)
 //	req s=<act>                           one top-level issue; <act> is a script item (below)
 //	noroute cb=<0|1>                      node-level app.Request whose route finds no target
+//	preq s=<act>                          request / notify to a peer that is a real service with an API dispatcher (apimapper): its
+//	                                      handler park.Park keeps the completion callback; `deliver` completes it later, in any
+//	                                      order, with other requests dispatched in between (asynchronous API handlers)
 //	areq peer=echo|hold s=<act>           node-level app.Request routed through the cluster directory to the peer that answers at
 //	                                      once with TestHello{7000+tag} (echo) or to the scripted one that holds requests (hold)
 //	anotify peer=echo|hold|none [ser=0]   node-level app.Notify to such a peer (none: no routable target)
@@ -16,6 +19,9 @@
 //	                                      the peer answers the message it received for instance <tag>
 //	                                      (kind=err: ErrCode = code, default 999; any code != 0 is an error reply)
 //	inject id=<n> kind=ok|nil|err|bad w=<n>     a raw ServiceResponse for an arbitrary id reaches the requester
+//	adv dt=<ms> flood=<n> [order=..]      as adv, but the service goroutine is parked in a posted closure for the whole time after
+//	                                      starting n zero-delay timers (n >= 1000 overflows timer.Mgr's 999-slot queue): an expiry
+//	                                      tick falling into the window is delivered late — at the end — not lost
 //	adv dt=<ms> [order=<tag,...>]         virtual time passes (the 1 s expiry scan runs inside);
 //	                                      `order` is appended by the harness AFTER execution: the order
 //	                                      in which the implementation (Go map iteration) ran the timeout
@@ -68,11 +74,14 @@ import (
 
 	as "github.com/dfklegend/cell2/actorex/service"
 	messages "github.com/dfklegend/cell2/actorex/service/servicemsgs"
+	api "github.com/dfklegend/cell2/apimapper"
+	"github.com/dfklegend/cell2/apimapper/apientry"
 	"github.com/dfklegend/cell2/node/app"
 	"github.com/dfklegend/cell2/node/cluster"
 	ns "github.com/dfklegend/cell2/node/service"
 	"github.com/dfklegend/cell2/nodectrl/define"
 	"github.com/dfklegend/cell2/utils/common"
+	"github.com/dfklegend/cell2/utils/serialize/proto"
 )
 
 // ---------------------------------------------------------------- script
@@ -145,10 +154,42 @@ func (p *peerSvc) ReceiveRequest(ctx actor.Context, request *messages.ServiceReq
 	}
 }
 
+// ParkEntry is the API collection of the asynchronous peer: Park keeps the completion
+// callback (nil for a notification) until the script completes it.
+type ParkEntry struct {
+	api.APIEntry
+}
+
+var theWorld *world
+
+func (e *ParkEntry) Park(d *as.RemoteContext, msg *messages.TestHello, cbFunc apientry.HandlerCBFunc) error {
+	w := theWorld
+	request, _ := d.ActorContext.Message().(*messages.ServiceRequest)
+	if w == nil || request == nil || request.Sender == nil {
+		return nil
+	}
+	k := int(msg.I)
+	w.mu.Lock()
+	defer w.mu.Unlock()
+	c := w.cur
+	if c == nil || c.pid == nil || request.Sender.Id != c.pid.Id {
+		return nil
+	}
+	if _, dup := c.recv[k]; !dup {
+		c.recv[k] = request
+		c.parked[k] = cbFunc
+		c.isParked[k] = true
+	}
+	c.sent = append(c.sent, fmt.Sprintf("%d:%d:%s", k, request.ReqId, request.Route))
+	return nil
+}
+
 type world struct {
 	sys     *actor.ActorSystem
 	peer    *peerSvc
 	peerPid *actor.PID
+	apiPeer *peerSvc // real service with an API dispatcher; its handlers complete asynchronously
+	apiPid  *actor.PID
 	mu      sync.Mutex
 	cur     *caseCtx
 	nCase   int
@@ -174,6 +215,8 @@ type caseCtx struct {
 	reported map[int32]bool // nil-callback ids whose removal has been put into an order annotation
 	sent     []string
 	recv     map[int]*messages.ServiceRequest
+	parked   map[int]apientry.HandlerCBFunc // completion callbacks kept by the API peer
+	isParked map[int]bool
 }
 
 func (c *caseCtx) now() int64 { return common.NowMs() - c.start }
@@ -276,6 +319,17 @@ func (c *caseCtx) issueVia(a *act, route string, via string) {
 	if a.kind == 'F' || a.kind == 'f' || a.kind == 'n' {
 		msg = plain{k}
 	}
+	if via == "api" {
+		switch a.kind {
+		case 'R', 'F':
+			c.svc.RequestEx(c.w.apiPid, "park.Park", msg, c.mkcb(k, a.sub))
+		case 'r', 'f':
+			c.svc.RequestEx(c.w.apiPid, "park.Park", msg, nil)
+		case 'N', 'n':
+			c.svc.NotifyEx(c.w.apiPid, "park.Park", msg)
+		}
+		return
+	}
 	if via != "" {
 		switch a.kind {
 		case 'R', 'F':
@@ -358,7 +412,7 @@ func (w *world) reset(ws []string) *caseCtx {
 		synctest.Wait()
 	}
 	w.nCase++
-	c := &caseCtx{w: w, reported: map[int32]bool{}, t0: map[int]int64{}, kind: map[int]byte{}, done: map[int]bool{}, recv: map[int]*messages.ServiceRequest{}}
+	c := &caseCtx{w: w, parked: map[int]apientry.HandlerCBFunc{}, isParked: map[int]bool{}, reported: map[int32]bool{}, t0: map[int]int64{}, kind: map[int]byte{}, done: map[int]bool{}, recv: map[int]*messages.ServiceRequest{}}
 	name := fmt.Sprintf("c01req%d", w.nCase)
 	props, _ := as.NewServicePropsWithNewScheDisp(func() actor.Actor {
 		n := ns.NewService()
@@ -404,6 +458,22 @@ func newWorld() *world {
 	if _, err := w.sys.Root.SpawnNamed(eprops, "c01echo"); err != nil {
 		panic(err)
 	}
+	col := apientry.NewCollection()
+	col.Register(&ParkEntry{}, apientry.WithGroupName("park"),
+		apientry.WithSerializer(proto.GetDefaultSerializer()), apientry.WithSerializeRet(false)).Build()
+	aprops, ext := as.NewServicePropsWithNewScheDisp(func() actor.Actor {
+		p := &peerSvc{Service: as.NewService(), w: w}
+		p.Service.InitReqReceiver(p)
+		w.apiPeer = p
+		return p
+	}, "c01api")
+	ext.WithDispatcher(as.NewDispatcher(col))
+	apid, err := w.sys.Root.SpawnNamed(aprops, "c01api")
+	if err != nil {
+		panic(err)
+	}
+	w.apiPid = apid
+	theWorld = w
 	// the cluster directory names both peers; its host:port PIDs resolve to the local actors
 	w.sys.ProcessRegistry.RegisterAddressResolver(func(pid *actor.PID) (actor.Process, bool) {
 		return w.sys.ProcessRegistry.GetLocal(pid.Id)
@@ -592,6 +662,15 @@ func (w *world) exec(op string) (string, string) {
 		}
 		c.onSvc(func() { c.issue(acts[0], "a.b") })
 		return op, c.observe("ok")
+	case "preq":
+		s, _ := hx.KV(ws, "s")
+		i := 0
+		acts := parseActs(s, &i)
+		if len(acts) != 1 || acts[0].kind == 'P' {
+			return op, "bad-op"
+		}
+		c.onSvc(func() { c.issueVia(acts[0], "park.Park", "api") })
+		return op, c.observe("ok")
 	case "areq":
 		s, _ := hx.KV(ws, "s")
 		i := 0
@@ -659,6 +738,27 @@ func (w *world) exec(op string) (string, string) {
 		if req == nil {
 			return op, c.observe("nopeer")
 		}
+		w.mu.Lock()
+		parked, isParked := c.parked[k], c.isParked[k]
+		w.mu.Unlock()
+		if isParked && kind != "bad" {
+			// the API handler's kept completion callback is invoked now, in the peer's own context
+			var e error
+			var ret interface{}
+			switch kind {
+			case "ok":
+				ret = &messages.TestHello{I: int32(wv)}
+			case "empty":
+				ret = &messages.EmptyArg{}
+			case "err":
+				if errCode(ws) != 0 {
+					e = fmt.Errorf("E%d", wv)
+				}
+			}
+			w.apiPeer.Post(func() { apientry.CheckInvokeCBFunc(parked, e, ret) })
+			synctest.Wait()
+			return op, c.observe("ok")
+		}
 		switch kind {
 		case "ok":
 			w.peer.Post(func() { w.peer.Response(req, 0, "", &messages.TestHello{I: int32(wv)}) })
@@ -695,15 +795,48 @@ func (w *world) exec(op string) (string, string) {
 			return op, "bad-op"
 		}
 		dt := hx.KVInt(ws, "dt")
+		flood := hx.KVInt(ws, "flood")
+		if flood > 0 && dt < 100 {
+			return op, "bad-op"
+		}
 		c.mu.Lock()
 		c.order = nil
 		c.mu.Unlock()
+		var release chan struct{}
+		fired := int32(0)
+		if flood > 0 {
+			// park the service goroutine inside a handler with more timer events pending than the queue holds
+			release = make(chan struct{})
+			c.svc.Post(func() {
+				tm := c.svc.GetRunService().GetTimerMgr()
+				for j := 0; j < flood; j++ {
+					tm.After(0, func(args ...interface{}) { atomic.AddInt32(&fired, 1) })
+				}
+				<-release
+			})
+			synctest.Wait()
+		}
 		time.Sleep(time.Duration(dt) * time.Millisecond)
 		synctest.Wait()
+		if release != nil {
+			close(release)
+			synctest.Wait()
+			// the run-service loop throttles itself after a frame that cost >= 100 ms: time.Sleep(2ms) before it
+			// looks at its queues again (RunService.analysisRunning) — part of the op
+			time.Sleep(2 * time.Millisecond)
+			synctest.Wait()
+		}
 		c.mu.Lock()
 		rec := fmt.Sprintf("adv dt=%d order=%s", dt, strings.Join(c.order, ","))
+		if flood > 0 {
+			rec = fmt.Sprintf("adv dt=%d flood=%d order=%s", dt, flood, strings.Join(c.order, ","))
+		}
 		c.mu.Unlock()
-		return rec, c.observe("ok")
+		st := "ok"
+		if flood > 0 && int(atomic.LoadInt32(&fired)) != flood {
+			st = fmt.Sprintf("ok-lost-timers:%d", flood-int(fired))
+		}
+		return rec, c.observe(st)
 	}
 	return op, "bad-op"
 }
@@ -904,6 +1037,10 @@ func (g *gen) genCase(run func(string)) {
 			case y <= 2 && (a[0] == 'N' || a[0] == 'n'):
 				h.Count("op.anotify")
 				run("anotify peer=" + []string{"echo", "hold", "hold", "none"}[r.Intn(4)] + map[byte]string{'N': "", 'n': " ser=0"}[a[0]])
+			case y >= 5:
+				// the peer whose API handler completes asynchronously
+				h.Count("op.preq")
+				run("preq s=" + a)
 			case y <= 1 && a[0] != 'N' && a[0] != 'n':
 				h.Count("op.areq")
 				run("areq peer=" + []string{"echo", "hold"}[r.Intn(2)] + " s=" + a)
@@ -983,6 +1120,14 @@ func (g *gen) genCase(run func(string)) {
 			if r.Intn(12) == 0 {
 				dt = 30000 + r.Intn(3000)
 				h.Count("op.adv.long")
+			}
+			if len(out) > 0 && r.Intn(40) == 0 {
+				// the service is stuck in a handler while > 999 timer events pile up, an expiry tick among them
+				h.Count("op.adv.flood")
+				run(fmt.Sprintf("adv dt=%d flood=%d", 700+r.Intn(2500), []int{999, 1000, 1001, 1300}[r.Intn(4)]))
+				run("req s=R")
+				run("adv dt=" + strconv.Itoa(31000+r.Intn(1500)))
+				continue
 			}
 			run("adv dt=" + strconv.Itoa(dt))
 		}
